@@ -91,3 +91,9 @@ Definition case_spec_ok (c : case) : bool :=
 
 Definition diff_indices (l : list case) : list nat := bad_indices (fun c => negb (case_agrees c)) l.
 Definition specfail_indices (l : list case) : list nat := bad_indices (fun c => negb (case_spec_ok c)) l.
+
+(* monomorphic constructors for the generated files (elaborating nested pair notations is slow) *)
+Definition D (m r n l : N) : id * body := ((m, r), (n, l)).
+Definition Q (m r h : N) : idsrc := ((m, r), h).
+Definition F (m r n l : N) : id * option body := ((m, r), Some (n, l)).
+Definition X (m r : N) : id * option body := ((m, r), None).
